@@ -28,6 +28,9 @@ CONVENTIONS = """/-
                                  b = 0; neither is represented: hashlib digest sizes are positive and lengths are small)
     L.append(e), L.extend(M)     re-binding `L := L ++ [e]`, `L := L ++ M` (the translator checks that `L` is a local list that
                                  never escapes by reference)
+    [e for x in it], tuple(e for x in it)   `it.map fun x => e`; `List.mapM` (stops at the first exception) when `e` can raise
+    for loops                    translated in place as `List.foldl` / `List.foldlM` over `fun state x => ..`; several loop-carried
+                                 variables form a tuple in the order of their first assignment in the loop body
     L[i] (i a natural)           raises IndexError when `i ≥ len(L)`; `PyErr` has no IndexError constructor, `PyErr.other` is
                                  used (every tie theorem proves the generated function equal to a model in which that branch
                                  does not exist, i.e. that it is dead)
@@ -57,12 +60,13 @@ def gen_extra_hash(repo, consts):
     H = [("H", HASHFN)]
     note = "/- `hashlib.sha256` is replaced by the explicit parameter `H` -/\n"
     for name, kw in (("hkdf_extract", dict(extra_params=H)),
-                     ("hkdf_expand", dict(extra_params=H, raises=True, outline_loops=True)),
+                     ("hkdf_expand", dict(extra_params=H, raises=True)),
                      ("i2osp", dict(raises=True)),
                      ("os2ip", {}),
                      ("sha256", dict(extra_params=H)),
                      ("xor", {}),
-                     ("expand_message_xmd", dict(raises=True, outline_loops=True))):
+                     ("expand_message_xmd", dict(raises=True))):
+        # (loops are NOT outlined: see the remark at hash_to_field_FQ2 below)
         tr = HashTranslator("field", hashparam="H" if "extra_params" in kw else None, externs=dict(ext), tymap=tymap)
         if "extra_params" in kw:
             out.append(note)
@@ -93,7 +97,9 @@ def gen_extra_hash(repo, consts):
     for name in ("hash_to_field_FQ2", "hash_to_field_FQ"):
         tr = HashTranslator("field", const=cs, const_values=vals, externs=dict(hext), copying={"FQ2"},
                             tymap={"HASH": HASHFN, "FQ": F1, "FQ2": F2})
-        out.append(tr.function(find_fn(tree, name), lines, rel, raises=True, outline_loops=True) + "\n")
+        # (loops are NOT outlined here: the tie theorems only mention the top-level functions, so that adding, removing
+        #  or reshaping a loop does not change any name or signature they refer to)
+        out.append(tr.function(find_fn(tree, name), lines, rel, raises=True) + "\n")
     out.append("end PyEcc.Gen.ExtraHash\n")
     return "".join(out)
 
@@ -112,7 +118,7 @@ def gen_extra_hash_secp(repo, consts):
         "safe_ord": Ext(None, [("value", BYTE)], NAT, template="UInt8.toNat {value}"),
     }
     tr = HashTranslator("int", externs=dict(ext))
-    out.append(tr.function(find_fn(tree, "bytes_to_int"), lines, rel, outline_loops=True) + "\n")
+    out.append(tr.function(find_fn(tree, "bytes_to_int"), lines, rel) + "\n")     # (the loop is not outlined)
     ext2 = {"bytes_to_int": Ext("Ecdsa.bytesToInt", [("x", BYTES)], INT)}
     tr = HashTranslator("int", hashparam="H", externs=dict(ext2))
     out.append("/- `hashlib.sha256` is replaced by the explicit parameter `H` -/\n")
@@ -199,7 +205,8 @@ def gen_extra_hash_iso(repo, consts):
     }
     for name in ("iso_map_G1", "iso_map_G2"):
         tr = HashTranslator("field", const=cs, tymap={"FQ": F1, "FQ2": F2}, classes={"FQ": F1, "FQ2": F2})
-        out.append(tr.function(find_fn(tree, name), lines, rel, raises=True, outline_loops=True) + "\n")
+        # (loops are not outlined: the tie theorems only mention `iso_map_G1` / `iso_map_G2` themselves)
+        out.append(tr.function(find_fn(tree, name), lines, rel, raises=True) + "\n")
     out.append("end PyEcc.Gen.ExtraHashIso\n")
     return "".join(out)
 
